@@ -36,6 +36,24 @@ CLAIMS = {
         "text cell equals the table value rendered in the block's format, row-count arithmetic over all block shapes, file content on disk."),
   note=NOTE_COMMON + "Sibling agreement compares normal forms of the resolved statement trees (engine/shape.py: line numbers, casts and the value parameter "
        "abstracted). CSelectedOutput::DeSerialize is the one allowed extra producer of table cells (rebuilds a table from its serialized form)."),
+ "C08": dict(
+  technique="exit/throw census against a computed must-throw set + boundary handler-shape analysis + error-counter writer census + increment/message pairing + keyword table/dispatch agreement + bounded-copy census (destination extents vs proven store bound)",
+  text=("Static structural analysis of the error discipline of the whole library. Decided: (a) every exit/abort call is unreachable - the statement "
+        "immediately before it never returns (membership in a computed must-throw set: functions all of whose paths end in a throw, and calls of "
+        "error_msg-style functions with a constant true stop argument) - or lies outside the call graph of the API; (b) every throw expression "
+        "throws one of the three Stop types and a bare `throw;` occurs only inside a handler; (c) in the five run/load entry points no call that may "
+        "throw is made outside the try, IPhreeqcStop is caught first and not re-thrown, IPhreeqc::error_msg throws IPhreeqcStop whenever stop is "
+        "true, the tail closes files, resynchronises the error views and returns get_input_errors(); reporters are cleared before the engine runs; "
+        "(d) an ERROR recorded makes the return value non-zero: io_error_count++ on every path of PHRQ_io::error_msg, the counters are reset to zero "
+        "only by the frozen start-of-call set, get_input_errors combines both; (e) every input_error increment in a calculation phase has an "
+        "error_msg call in its innermost block, reader-side increments are backed by tidy_model's end-of-input STOP; (f) every keyword enumerator "
+        "has a name and a read_input case, unknown keyword is a STOP error; (g) copy_token(char*) stores at most MAX_LENGTH-1 characters and each of "
+        "its 124 callers passes an array of at least MAX_LENGTH bytes; no unbounded libc writer targets a fixed array. Three crash/abort defects "
+        "found by these rules were replayed and fixed. Known findings: the boundary re-throws exceptions other than IPhreeqcStop. NOT decided: "
+        "memory safety and absence of undefined behaviour for all byte sequences in general - outside what these analyses can establish."),
+  note=NOTE_COMMON + "Frozen tables: c08_counters.json (who may reset the counters), c08_pair_exempt.json (one defensive increment). Virtual calls are resolved by "
+       "class-hierarchy analysis; a virtual call is never-returning only if every override is. std-library calls that may throw (substr, at, sto*) are "
+       "censused in the evidence as information, not decided."),
  "C09": dict(
   technique="dual-sink forwarding shape of every *_msg override and base + who-may-write census + guarded-index rule on the six line accessors + rebuild pairing + post-dominance of update_errors() over every reporter mutation (with caller obligations)",
   text=("Static structural analysis of the output channels (output, log, punch, dump, error, warning). Decided per message: (a) each IPhreeqc::*_msg "
